@@ -586,6 +586,23 @@ def case(draw, with_links=True, max_res=8, mixed_nrexcl=False, routes=("json", "
                     explicit.append({"sec": "constraints", "atoms": pair, "params": ["1", _param(draw)]})
                 else:
                     explicit.append({"sec": "bonds", "atoms": pair, "params": ["1", _param(draw), _param(draw)]})
+    if draw(st.integers(0, 2 if route == "seq" else 7)) == 0:
+        # residue names with lower-case letters (Ra, Rb ...): names are case sensitive everywhere
+        mapping = {n: n[0] + n[1:].lower() for n in names}
+
+        def ren(text):
+            return "|".join(mapping.get(part, part) for part in text.split("|"))
+        for b in blocks:
+            b["name"] = ren(b["name"])
+            for a in b["atoms"]:
+                a["resname"] = ren(a["resname"])
+        for lnk in links:
+            lnk["resname"] = ren(lnk["resname"])
+            for at in lnk["atoms"]:
+                if "resname" in at["attrs"]:
+                    at["attrs"] = dict(at["attrs"], resname=ren(at["attrs"]["resname"]))
+        for nd in graph["nodes"]:
+            nd["resname"] = ren(nd["resname"])
     return {"rng": draw(st.integers(0, 2**31 - 1)), "name": "mol", "blocks": blocks, "links": links,
             "mods": [], "files": files, "graph": graph, "route": route, "mods_cli": [], "explicit": explicit,
             "explicit_one_link": one_link}
